@@ -123,5 +123,66 @@ macro_rules! escape_roundtrip {
 escape_roundtrip!(escape_roundtrip_3, 3, 26);
 //@harness name=escape_roundtrip_2 tier=quick timeout=600 unwind=26 desc="same, <= 2 bytes (kept separately so that a slow 3-byte run still leaves a decided bound)" bounds="every well-formed UTF-8 string of <= 2 bytes"
 escape_roundtrip!(escape_roundtrip_2, 2, 26);
-//@harness name=escape_roundtrip_4 tier=thorough optional=1 timeout=7200 unwind=26 desc="same, <= 4 bytes (one astral scalar)" bounds="every well-formed UTF-8 string of <= 4 bytes"
+//@harness name=escape_roundtrip_4 tier=thorough optional=1 timeout=3600 unwind=26 desc="same, <= 4 bytes (one astral scalar)" bounds="every well-formed UTF-8 string of <= 4 bytes"
 escape_roundtrip!(escape_roundtrip_4, 4, 26);
+
+/// `std.trace` output of strings: `manifest_json_ex_buf`'s string arm with a truncation limit.
+macro_rules! trace_truncate {
+    ($name:ident, $n:expr) => {
+        #[kani::proof]
+        #[kani::unwind(8)]
+        pub fn $name() {
+            use crate::trunc::*;
+            let s = SymStr::<$n>::any_utf8_len($n);
+            let t: usize = kani::any();
+            kani::assume(t <= $n + 1);
+            let some: bool = kani::any();
+            let options = JsonFormat { debug_truncate_strings: if some { Some(t) } else { None } };
+            let mut buf = Emitted::Nothing;
+            #[cfg(verif_playback)]
+            {
+                println!("REPLAY-INPUT: {:?} bytes={:?} truncate={:?}", s.as_str(), s.bytes(), options.debug_truncate_strings);
+                // the CLI reaches this arm only with the limit 256 (std.trace of a non-string value):
+                // pad so that byte 128 from the front / from the back falls where byte t/2 fell here
+                if let Some(t) = options.debug_truncate_strings {
+                    println!(
+                        "REPLAY-JSONNET: std.trace([std.repeat('a', {}) + {} + std.repeat('a', 300)], 1)",
+                        128 - t / 2,
+                        s.jsonnet()
+                    );
+                    println!("REPLAY-EXPECT: nocrash");
+                    println!(
+                        "REPLAY-JSONNET: std.trace([std.repeat('a', 300) + {} + std.repeat('a', {})], 1)",
+                        s.jsonnet(),
+                        128 - t / 2
+                    );
+                    println!("REPLAY-EXPECT: nocrash");
+                }
+            }
+            let sv = StrValue(s.as_str());
+            str_arm(&sv, &options, &mut buf);
+            let base = s.as_str().as_ptr();
+            match buf {
+                Emitted::Nothing => assert!(false, "C05.trace.emits the string arm emitted nothing"),
+                Emitted::Whole(p) => {
+                    assert!(p.ptr == base && p.len == $n, "C05.trace.whole the untruncated output is not the whole string");
+                    assert!(!some || t >= $n, "C05.trace.limit a string longer than the limit is printed whole");
+                }
+                Emitted::Joined(a, b) => {
+                    assert!(some && t < $n, "C05.trace.untruncated a string within the limit is truncated");
+                    assert!(a.ptr == base && a.len <= t / 2, "C05.trace.prefix the first piece is not a prefix of at most half the limit");
+                    assert!(
+                        b.len <= t / 2 && b.ptr == unsafe { base.add($n - b.len) },
+                        "C05.trace.suffix the second piece is not a suffix of at most half the limit"
+                    );
+                }
+            }
+            kani::cover!(some && t < $n && s.b[0] >= 0xC2, "truncation of a multi-byte string reached");
+            kani::cover!(some && t < $n && s.b[$n - 1] >= 0x80, "truncation with a multi-byte tail reached");
+        }
+    };
+}
+//@harness name=trace_truncate_4 tier=quick timeout=900 unwind=8 desc="Val::Str arm of manifest_json_ex_buf with debug_truncate_strings: no panic; emits the whole string when within the limit, else a prefix and a suffix of at most half the limit each" bounds="every well-formed UTF-8 string of exactly 4 bytes, limit None or 0..=5"
+trace_truncate!(trace_truncate_4, 4);
+//@harness name=trace_truncate_6 tier=quick timeout=900 unwind=8 desc="same, 6 bytes" bounds="every well-formed UTF-8 string of exactly 6 bytes, limit None or 0..=7"
+trace_truncate!(trace_truncate_6, 6);
